@@ -383,6 +383,19 @@ func (m *tableMon) memberAfter(kind string, before, after *memberSnap, atomic bo
 			c.Viol("C03", "C03.valid_reserve_refused", map[string]any{"random_seat": jp.Seat == -1}, "reservation of new player %s (seat %d) was refused (%v) although the table has %d of %d seats occupied and the seat is free: %s", jp.PlayerID, jp.Seat, err, len(before.ids), n, before.sm)
 		}
 	}
+	if err != nil && !atomic && kind == "update" && len(leaves) > 0 {
+		// not a before/after picture, but players named in the leave list that were seated and are gone
+		// although the call failed can only have been removed by this call (one admin task)
+		gone := true
+		for _, id := range leaves {
+			if !before.ids[id] || after.ids[id] {
+				gone = false
+			}
+		}
+		if gone {
+			c.Viol("C03", "C03.failed_op_left_trace", map[string]any{"op": kind, "part": "table", "leaves_applied_joins_refused": true}, "%s returned %v but the players %v named in its leave list have been removed", kind, err, leaves)
+		}
+	}
 	if err != nil {
 		if atomic {
 			c.Judged("C03.member_op")
